@@ -27,6 +27,8 @@ def struct_generics(prog, name, lt="a"):
 
 def rs_ty(prog, t, lt_for_structs="a"):
     k = t[0]
+    if k == "raw":
+        return t[1]
     if k == "prim":
         return t[1]
     if k == "enum":
@@ -397,7 +399,9 @@ def emit_body(prog, owner, m, ind):
 def emit_typedef(prog, t, bodies, ind="    "):
     out = []
     out.append(attrs_s(t.attrs, ind))
-    gens = "<%s>" % ", ".join("'" + l for l in t.lifetimes) if t.lifetimes else ""
+    gens = "<%s>" % ", ".join("'" + l for l in t.lifetimes) if t.lifetimes else ""          # declaration site (may carry bounds)
+    lt_names = [l.split(":")[0].strip() for l in t.lifetimes]
+    use_gens = "<%s>" % ", ".join("'" + l for l in lt_names) if lt_names else ""             # use site
     if t.kind == "enum":
         out.append("%spub enum %s {\n" % (ind, t.name))
         for vn, e in t.variants:
@@ -418,13 +422,13 @@ def emit_typedef(prog, t, bodies, ind="    "):
         out.append("%s#[diplomat::opaque]\n" % ind)
         if t.lifetimes:
             out.append("%spub struct %s%s { pub id: u32, pub seed: u32, pub touched: u32, pub ph: core::marker::PhantomData<(%s)> }\n" % (
-                ind, t.name, gens, ", ".join("&'%s ()" % l for l in t.lifetimes) + ","))
+                ind, t.name, gens, ", ".join("&'%s ()" % l for l in lt_names) + ","))
         else:
             out.append("%spub struct %s { pub id: u32, pub seed: u32, pub touched: u32 }\n" % (ind, t.name))
     if t.methods:
         for a in getattr(t, "impl_attrs", []):
             out.append("%s%s\n" % (ind, a))
-        out.append("%simpl%s %s%s {\n" % (ind, gens, t.name, gens))
+        out.append("%simpl%s %s%s {\n" % (ind, gens, t.name, use_gens))
         for m in t.methods:
             out.append(emit_method(prog, t, m, bodies, ind + "    "))
         out.append("%s}\n" % ind)
